@@ -177,6 +177,12 @@ def csv_case(draw):
         cols.append(spec)
     params = draw(G.params_for(cmd, n, [x for x in cols[0]["data"]][:4]))
     markers = draw(st.lists(st.sampled_from([-9999, 99, -77, 12345, 1000]), min_size=2, max_size=2, unique=True))
+    if dtype == "float64" and draw(st.integers(0, 3)) == 0:
+        # a valid cell that is almost, but not, the missing-value marker of one of the two files (a relative 2e-6 away)
+        k = draw(st.integers(0, n - 1))
+        free = [r for r in range(rows) if not (cols[k]["mask"] or [0] * rows)[r]]
+        if free:
+            cols[k]["data"][draw(st.sampled_from(free))] = markers[draw(st.integers(0, 1))] * (1 + 2e-6)
     return {"cmd": cmd, "params": params, "cols": cols, "dtype": dtype, "markers": markers, "fuzzy": fuzzy}
 
 
